@@ -23,8 +23,8 @@ from ..simnet import AsyncSimStream, World
 from ..topo import KINDS, is_h2, topo
 
 KIND_LIST = ["tunnel-refused", "tunnel-refused-keepalive", "socks-refused", "socks-auth-refused", "direct-h1", "direct-tls-h1", "direct-h2", "prior-h2", "forward", "forward-https-proxy", "tunnel-h1", "tunnel-h2",
-             "tunnel-https-proxy-h1", "socks-h1", "socks-auth-h1", "socks-tls-h1", "socks-auth-tls-h2", "uds-h1", "uds-tls-h1", "uds-tls-h2"]
-QUICK_KINDS = ["uds-tls-h1", "tunnel-refused", "socks-refused", "direct-h1", "direct-tls-h1", "direct-h2", "tunnel-h1", "tunnel-h2", "socks-auth-h1", "socks-tls-h1", "forward"]
+             "tunnel-https-proxy-h1", "socks-h1", "socks-auth-h1", "socks-tls-h1", "socks-auth-tls-h2", "uds-h1", "uds-tls-h1", "uds-tls-h2", "tls-h2-forced"]
+QUICK_KINDS = ["uds-tls-h1", "tls-h2-forced", "tunnel-refused", "socks-refused", "direct-h1", "direct-tls-h1", "direct-h2", "tunnel-h1", "tunnel-h2", "socks-auth-h1", "socks-tls-h1", "forward"]
 CONTEXTS = ["alone", "queued-other", "sibling", "pool-timeout"]
 SHAPES = ["get", "post2", "stream2"]
 FAULTS = {"connect": ["ConnectError", "ConnectTimeout"], "start_tls": ["ConnectError", "ConnectTimeout"],
